@@ -11,12 +11,14 @@ package durable
 
 import (
 	"bytes"
+	"context"
 	"fmt"
 	"os"
 	"os/exec"
 	"strconv"
 	"strings"
 	"testing"
+	"time"
 
 	"github.com/westerndigitalcorporation/blb/internal/core"
 	"github.com/westerndigitalcorporation/blb/pkg/raft/raft"
@@ -164,12 +166,51 @@ func c10mRunCase(ci int, tr *vw.Trace, child bool) {
 	report := func(sig, what string, detail map[string]interface{}) {
 		vw.Report(vw.Violation{Property: "C10", Signature: sig, What: what, Case: id, Detail: detail})
 	}
-	takeSnap := func() {
-		snap = mmSnapshot(A)
+	// raft calls Snapshot() on the FSM goroutine and Save() later: up to 3 commands are applied in between
+	var snapObj raft.Snapshoter
+	snapTaken, snapLogged := false, false
+	deferLeft := 0
+	type tline struct{ op, obs []int64 }
+	var pending []tline
+	emit := func(op, obs []int64) {
+		if tr == nil {
+			return
+		}
+		if snapTaken && !snapLogged {
+			pending = append(pending, tline{op, obs})
+			return
+		}
+		tr.Op(op...)
+		tr.Obs(obs...)
+	}
+	beginSnap := func() {
+		var err error
+		if snapObj, err = A.Snapshot(); err != nil {
+			panic(err)
+		}
+		snapTaken = true
 		snapDump = mmDump(A)
+		deferLeft = r.PickInt(0, 1, 2, 3)
+	}
+	finishSnap := func() {
+		if !snapTaken || snapLogged {
+			return
+		}
+		var buf bytes.Buffer
+		if err := snapObj.Save(&buf); err != nil {
+			panic(err)
+		}
+		snapObj.Release()
+		snap = buf.Bytes()
+		snapLogged = true
 		if tr != nil {
 			tr.Op(211)
 			tr.Obs(snapDump...)
+			for _, l := range pending {
+				tr.Op(l.op...)
+				tr.Obs(l.obs...)
+			}
+			pending = nil
 		}
 	}
 	if tr != nil {
@@ -178,7 +219,10 @@ func c10mRunCase(ci int, tr *vw.Trace, child bool) {
 		tr.Obs(mmDump(A)...)
 	}
 	if j == 0 {
-		takeSnap()
+		beginSnap()
+		if deferLeft == 0 {
+			finishSnap()
+		}
 	}
 	idx := uint64(0)
 	died := false
@@ -192,6 +236,7 @@ func c10mRunCase(ci int, tr *vw.Trace, child bool) {
 				fmt.Println("C10MCHILD-SURVIVED")
 				return
 			}
+			finishSnap()
 			if c10mSpawnChild(ci) {
 				vw.Stat("m-malformed-crash", 1)
 				tr.Op(c.line(idx)...)
@@ -203,6 +248,7 @@ func c10mRunCase(ci int, tr *vw.Trace, child bool) {
 		}
 		res, pan := mmApply(A, c, idx)
 		if pan != "" {
+			finishSnap()
 			report("crash-on-api-command:master:"+c.kind, "a command the master's own API can submit made the replica panic while applying it",
 				map[string]interface{}{"panic": pan, "op": vw.Ints(c.line(idx))})
 			died = true
@@ -214,14 +260,22 @@ func c10mRunCase(ci int, tr *vw.Trace, child bool) {
 		}
 		cmds, idxs, ress = append(cmds, c), append(idxs, idx), append(ress, rl)
 		vw.Stat("m-cmd:"+c.kind, 1)
-		if tr != nil {
-			tr.Op(c.line(idx)...)
-			tr.Obs(append(append([]int64{}, rl...), mmDump(A)...)...)
+		emit(c.line(idx), append(append([]int64{}, rl...), mmDump(A)...))
+		if snapTaken && !snapLogged {
+			if deferLeft--; deferLeft <= 0 {
+				finishSnap()
+			} else {
+				vw.Stat("m-commands-between-Snapshot-and-Save", 1)
+			}
 		}
 		if p == j {
-			takeSnap()
+			beginSnap()
+			if deferLeft == 0 {
+				finishSnap()
+			}
 		}
 	}
+	finishSnap()
 	if child {
 		fmt.Println("C10MCHILD-NO-MALFORMED")
 		return
@@ -292,7 +346,9 @@ func c10mRunCase(ci int, tr *vw.Trace, child bool) {
 }
 
 func c10mSpawnChild(ci int) bool {
-	cmd := exec.Command(os.Args[0], "-test.run", "^TestVerifC10M$", "-test.count=1")
+	ctx, cancel := context.WithTimeout(context.Background(), 90*time.Second)
+	defer cancel()
+	cmd := exec.CommandContext(ctx, os.Args[0], "-test.run", "^TestVerifC10M$", "-test.count=1")
 	cmd.Env = append(os.Environ(), "VERIF_C10M_CHILD="+strconv.Itoa(ci))
 	out, err := cmd.CombinedOutput()
 	survived := strings.Contains(string(out), "C10MCHILD-SURVIVED")
